@@ -23,8 +23,9 @@ type Case struct {
 }
 
 type FileM struct {
-	Syntax string `json:"syntax"` // "native" | "json"
-	Body   BodyM  `json:"body"`
+	Syntax    string `json:"syntax"` // "native" | "json"
+	Body      BodyM  `json:"body"`
+	JSONArray int    `json:"json_array,omitempty"` // >0: bodies rendered as arrays of objects
 }
 
 type BodyM struct {
